@@ -30,9 +30,9 @@ m = {
     "setup_cmd": "tools/setup",
     "hooks": {
         "guard": "casbin_verif",
-        "enable": "RUSTFLAGS=\"--cfg casbin_verif\" (set by tools/check when it builds harness/ against /repo); no hook commits exist, the guard is reserved",
+        "enable": "RUSTFLAGS=\"--cfg casbin_verif\" (set by tools/check when it builds harness/ against /repo); one add-only hook commit: a verif_hooks module in src/lib.rs re-exports util text functions and a Config dump under #[cfg(casbin_verif)]",
         "baseline_off_cmd": "cd /repo && cargo test --workspace --no-fail-fast --offline",
-        "source_commits": [],
+        "source_commits": ["62ada8a5f9648b7981291254a9cd4e4c995e86fd"],
         "add_only": True,
     },
     "engines": [{
